@@ -1063,6 +1063,10 @@ func RunC02Harness(opts *Options, harness, outName string) (string, error) {
 	os.MkdirAll(scratch, 0o755)
 	ov := filepath.Join(scratch, "overlay-"+outName+".json")
 	repl := map[string]string{filepath.Join(opts.RepoDir, "ssa", "zz_verif_emit_test.go"): filepath.Join(opts.VerifDir, "harness", harness)}
+	if harness == "c03_emit_test.go" {
+		// second harness file (package ssa_test): cases compiled from Go source by the real cl package
+		repl[filepath.Join(opts.RepoDir, "ssa", "zz_verif_emit_cl_test.go")] = filepath.Join(opts.VerifDir, "harness", "c03_emit_cl_test.go")
+	}
 	for k, v := range opts.OverlayFiles {
 		repl[k] = v
 	}
@@ -1081,6 +1085,8 @@ func RunC02Harness(opts *Options, harness, outName string) (string, error) {
 		return "", err
 	}
 	out := filepath.Join(scratch, outName+".ll")
+	os.Remove(out)
+	os.Remove(out + ".cl")
 	cmd := exec.Command(os.Getenv("GO"), "test", "-tags", "llvm14", "-overlay", ov, "-vet=off", "-count=1", "-timeout", "600s", "-run", "TestZZVerifEmit", "./ssa/")
 	if os.Getenv("GO") == "" {
 		cmd = exec.Command("go", cmd.Args[1:]...)
@@ -1094,6 +1100,9 @@ func RunC02Harness(opts *Options, harness, outName string) (string, error) {
 	text, err := os.ReadFile(out)
 	if err != nil {
 		return "", fmt.Errorf("emission harness wrote no IR: %v\n%s", err, truncate(string(b), 2000))
+	}
+	if extra, err := os.ReadFile(out + ".cl"); err == nil {
+		text = append(append(text, '\n'), extra...)
 	}
 	return string(text), nil
 }
